@@ -35,9 +35,11 @@ def apply_mutant(d, m):
         return
     p = os.path.join(d, m["file"])
     s = open(p).read()
-    if s.count(m["old"]) != 1:
-        raise SystemExit(f"mutant {m['id']}: pattern occurs {s.count(m['old'])} times in {m['file']}")
-    open(p, "w").write(s.replace(m["old"], m["new"]))
+    for old, new in ([[m["old"], m["new"]]] if "old" in m else m["edits"]):
+        if s.count(old) != 1:
+            raise SystemExit(f"mutant {m['id']}: pattern occurs {s.count(old)} times in {m['file']}")
+        s = s.replace(old, new)
+    open(p, "w").write(s)
 
 
 def run_tests(d):
